@@ -99,6 +99,11 @@ func (r *Regexp) LookupMulti(_ context.Context, key string) ([]string, error) {
 		return []string{}, nil
 	}
 
+	if len(r.replacements) == 0 {
+		// No replacement: act as a match check, return the original string.
+		return []string{key}, nil
+	}
+
 	result := []string{}
 	for _, replacement := range r.replacements {
 		if !r.expandPlaceholders {
